@@ -30,7 +30,8 @@ def run_case(case, rng):
                       "stray"])
     base = {"ghostzero": "any", "stray": "any"}.get(fam, fam)
     n_max = 12 if case.tier == "thorough" and rng.random() < 0.3 else 7
-    sp = G.random_spec(rng, base, n_max=n_max, min_states=2 if fam in ("stray", "ghostzero") else 1)
+    sp = G.random_spec(rng, base, n_max=n_max, min_states=2 if fam in ("stray", "ghostzero") else 1,
+                       near_absorbing=(base == "any"))
     rep = rng.choice(Bd.REPRS)
     explicit = rep.endswith("explicit")
     ghost = None
